@@ -328,6 +328,35 @@ def rule_lit(ctx: Ctx) -> RuleResult:
           "generator's own style table, as an int, unconditionally", DISCHARGED if ok else VIOLATED,
           "types_style[StringLiteral][max_literals] = int(max_literals)" if ok else "limit not stored / transformed / conditional",
           init.node.lineno)
+    # every generator subclass hands the options it accepts by name on to the base constructor
+    gbase = prog.cls(BASE, "GenericModelCodeGenerator")
+    bparams = set(init.params) - {"self", "model"}
+    for k in prog.subclasses(gbase, strict=True):
+        for f in k.methods.get("__init__", []):
+            rr.instances += 1
+            sup = [c for c in walk_no_nested(f.node) if isinstance(c, ast.Call) and norm(c.func) in ("super().__init__",
+                   f"super({k.name}, self).__init__") or (isinstance(c, ast.Call) and norm(c.func).endswith(".__init__") and c.args and norm(c.args[0]) == "self")]
+            named = [p for p in f.params if p in bparams]
+            problems = []
+            if not sup:
+                problems.append("base constructor is not called")
+            else:
+                c = sup[0]
+                kws = {kw.arg: norm(kw.value) for kw in c.keywords if kw.arg}
+                star = [norm(kw.value) for kw in c.keywords if kw.arg is None]
+                if f.node.args.kwarg and f.node.args.kwarg.arg not in star:
+                    problems.append(f"**{f.node.args.kwarg.arg} is not forwarded")
+                for p in named:
+                    if kws.get(p) != p and p not in [norm(a) for a in c.args]:
+                        # allowed: the subclass fixes the value on purpose by writing it into kwargs before the call
+                        forced = any(isinstance(n, ast.Assign) and isinstance(n.targets[0], ast.Subscript) and
+                                     isinstance(n.targets[0].slice, ast.Constant) and n.targets[0].slice.value == p
+                                     for n in walk_no_nested(f.node))
+                        if not forced:
+                            problems.append(f"parameter `{p}` is accepted but not passed to the base constructor")
+            rr.ob(f.relpath, f.qualname, norm(sup[0])[:70] if sup else "__init__", "options accepted by a framework generator "
+                  "reach the base constructor (max_literals, post_init_converters, convert_unicode, types_style)",
+                  VIOLATED if problems else DISCHARGED, "; ".join(problems) if problems else "forwarded", f.node.lineno)
     # overflowed or empty literal sets become str in optimize_type
     ot = prog.func("json_to_models/generator.py", "MetadataGenerator.optimize_type")
     rr.instances += 1
